@@ -7,6 +7,7 @@ CONSTANT ReqSets <- RS2
 CONSTANT MaxWrites = 2
 CONSTANT PutSets <- PS3
 CONSTANT ConfSets <- CS1
+CONSTANT CoalSets <- PS2
 CONSTANT Lims = {0, 1}
 SPECIFICATION Spec
 VIEW view
